@@ -561,6 +561,7 @@ pub(crate) fn verif_collector_stats() -> crate::verif::Stats {
                     + c.commit_collects.len()
                     + c.submit_spans.len()
                     + c.stale_spans.len(),
+                held_span_sets: c.held_spans.len(),
             }
         }
     }
